@@ -2,17 +2,29 @@
 //!
 //! Case kinds (every case is a small batch of *pairs* = (input or history, configuration); configuration = poll script of
 //! the `PollRead` / `PollWrite` adversary × tokio runtime flavour × BGZF worker count × H1 delay plan):
-//!   RD  reader: async transcript (c16::rd, element-for-element mirror of `corpus::transcript_read`) == sync
-//!       transcript of the same bytes; valid corpus items, re-blocked BGZF layouts, truncated and one-byte-corrupt inputs
-//!       (error kind and position in the transcript are part of the comparison; message texts are not).
-//!   SK  BGZF operation histories with `seek` / `seek_by_uncompressed_position` on both readers.
+//!   RD  reader: async transcript (c16::rd, element-for-element mirror of `corpus::transcript_read`, plus the
+//!       Stream-returning APIs `records()` / `record_bufs()` / `lines()`) == sync transcript of the same bytes; valid
+//!       corpus items, two local witness items, re-blocked BGZF layouts, truncated and one-bit-corrupt inputs (error kind
+//!       and position in the transcript are part of the comparison; message texts are not).
+//!   SK  BGZF operation histories with `seek` / `seek_by_uncompressed_position` on both readers (every operation is
+//!       compared; after a difference the state counts as tainted until the next seek).
 //!   QY  region queries (BAM+BAI, SAM.gz+CSI, BCF+CSI, VCF.gz+tabix, csi::IndexedReader, CRAM+CRAI): one reader, a
-//!       sequence of queries (with repeats and the unmapped query), async == sync.
+//!       sequence of queries (with repeats and the unmapped query), every query compared on its own, async == sync.
 //!   WR  writer: async write history (c16::wr, mirror of `corpus::write_prepared`, finished with `shutdown()`):
 //!       uncompressed formats byte-identical to the sync output; compressed formats well-formed (independent BGZF
-//!       walker, EOF marker) and decoding (sync reader) to what the sync output decodes to.
+//!       walker, EOF marker), same inflated payload, and decoding (sync reader) to what the sync output decodes to.
+//!   WB  the same for seeded BGZF write / flush histories (payload class, length around the staging limit, split
+//!       pattern, flush pattern, every compression level).
 //! Hook H1 delays individual inflate / deflate jobs inside the `spawn_blocking` closures; the event log yields the
-//! completion inversions that were actually realised.
+//! completion inversions that were actually realised (floors per worker count 2..8).
+//!
+//! Signatures: `<kind>:<reader|writer|query|seek>:…:<difference class>`; difference classes name the RELATION of the two
+//! transcripts (same-elements / async-stops-early / async-goes-on / diverges-at-<element>) and the two terminators, and a
+//! few root causes are recognised by name (see `rd_signature`, findings/C16.known).
+//!
+//! Parameters: `only=rd,stream,sched,mal,sk,qy,wr,wb` (parts), `item=<substring>` (debugging), `tiny=1` (sanitizer-sized
+//! workload whatever the tier), `cfgs`, `scale`, `seek_histories`, `query_seeds`, `bgzf_histories`, `pairs_per_case`;
+//! environment `C16_TIMEOUT_S` (wall-clock timeout per pair, default 120 s, firing = inconclusive).
 
 mod hook;
 mod qy;
@@ -1244,9 +1256,10 @@ fn main() {
     noodles_bgzf::verif::set_hook(hook::hook);
     let mut rep = Report::new(
         "pair = (input or call history, configuration); inputs = every corpus item of a kind with an async reader (valid, \
-         re-blocked BGZF layout, truncated, one bit flipped), BGZF seek histories, query sequences over data + index items, \
-         write histories of every writable item; configuration = poll script class (always ready; chunk 1,2,3,7,17,4096; \
-         random chunks; Pending 1/2, 1/3, 1/10 x chunking) x tokio runtime (current-thread / 4-worker, future spawned on the \
+         re-blocked BGZF layout, truncated, one bit flipped; read_* calls and Stream APIs) + two local witness items, BGZF \
+         seek histories, query sequences over data + index items, write histories of every writable item, seeded BGZF \
+         write/flush histories; configuration = poll script class (always ready; chunk 1,2,3,7,17,4096; random chunks; \
+         Pending 1/2, 1/3, 1/10 x chunking) x tokio runtime (current-thread / 4-worker, reader futures spawned on the \
          workers) x BGZF worker count 1..8 x H1 delay plan; oracle = the synchronous reader / writer on the same bytes / \
          calls; distinct = distinct (module, part, variant, input class, script class, runtime, worker count, plan) tuples \
          plus every distinct completion order with at least one inversion",
@@ -1254,6 +1267,8 @@ fn main() {
     rep.assumptions.push("record values are compared through noodles' own text writers + typed aux values + a hash of Debug of the header (corpus::render), not through raw buffers".into());
     rep.assumptions.push("error MESSAGES are not compared, error kinds and their position in the transcript are".into());
     rep.assumptions.push("completion order is observed at the H1 sites inside the spawn_blocking closures; sampled orders, not every permutation".into());
+    rep.assumptions.push("differences on inputs the sync path REJECTS (error kind / position) are reported although the literal quantifier names inputs the sync path accepts: the statement names errors; they carry the input class truncated* / corrupt in their signature".into());
+    rep.assumptions.push("tiny-chunk poll scripts on large inputs are scaled so that one pair needs at most ~400k transfers".into());
     rep.assumptions.push("async CRAM writer is compared with the sync writer at the production layout (no layout override exists on the async side); CRAM / CRAI / BGZF outputs are compared by what they decode to".into());
     let w = world(&ctx);
     let f = |i: u64| -> CaseOut { run_case(&ctx, w, &w.cases[i as usize]) };
